@@ -52,29 +52,36 @@ pub fn header6(s: &mut Src) {
 scenarios! {
     #[kani::unwind(8)]
     #[kani::stub(<mqtt_proto_sync::Error as std::convert::From<std::io::Error>>::from, crate::model::from_io_eof_stub)]
+    #[kani::stub(<std::io::Error as std::string::ToString>::to_string, crate::model::io_to_string_stub)]
     #[kani::stub(simdutf8::basic::from_utf8, crate::model::from_utf8_class_stub)]
     c03_v3_any0 [1] => v3_any0;
     #[kani::unwind(8)]
     #[kani::stub(<mqtt_proto_sync::Error as std::convert::From<std::io::Error>>::from, crate::model::from_io_eof_stub)]
+    #[kani::stub(<std::io::Error as std::string::ToString>::to_string, crate::model::io_to_string_stub)]
     #[kani::stub(simdutf8::basic::from_utf8, crate::model::from_utf8_class_stub)]
     c03_v3_any1 [1] => v3_any1;
     #[kani::unwind(8)]
     #[kani::stub(<mqtt_proto_sync::Error as std::convert::From<std::io::Error>>::from, crate::model::from_io_eof_stub)]
+    #[kani::stub(<std::io::Error as std::string::ToString>::to_string, crate::model::io_to_string_stub)]
     #[kani::stub(simdutf8::basic::from_utf8, crate::model::from_utf8_class_stub)]
     c03_v3_any2 [2] => v3_any2;
     #[kani::unwind(8)]
     #[kani::stub(<mqtt_proto_sync::Error as std::convert::From<std::io::Error>>::from, crate::model::from_io_eof_stub)]
+    #[kani::stub(<std::io::Error as std::string::ToString>::to_string, crate::model::io_to_string_stub)]
     #[kani::stub(simdutf8::basic::from_utf8, crate::model::from_utf8_class_stub)]
     c03_v5_any0 [1] => v5_any0;
     #[kani::unwind(8)]
     #[kani::stub(<mqtt_proto_sync::Error as std::convert::From<std::io::Error>>::from, crate::model::from_io_eof_stub)]
+    #[kani::stub(<std::io::Error as std::string::ToString>::to_string, crate::model::io_to_string_stub)]
     #[kani::stub(simdutf8::basic::from_utf8, crate::model::from_utf8_class_stub)]
     c03_v5_any1 [1] => v5_any1;
     #[kani::unwind(8)]
     #[kani::stub(<mqtt_proto_sync::Error as std::convert::From<std::io::Error>>::from, crate::model::from_io_eof_stub)]
+    #[kani::stub(<std::io::Error as std::string::ToString>::to_string, crate::model::io_to_string_stub)]
     #[kani::stub(simdutf8::basic::from_utf8, crate::model::from_utf8_class_stub)]
     c03_v5_any2 [2] => v5_any2;
     #[kani::unwind(8)]
     #[kani::stub(<mqtt_proto_sync::Error as std::convert::From<std::io::Error>>::from, crate::model::from_io_eof_stub)]
+    #[kani::stub(<std::io::Error as std::string::ToString>::to_string, crate::model::io_to_string_stub)]
     c03_header6 [6] => header6;
 }
